@@ -4,6 +4,7 @@ package c04
 import (
 	"bufio"
 	"bytes"
+	"context"
 	"database/sql"
 	"encoding/json"
 	"errors"
@@ -254,6 +255,76 @@ type (
 	IfcChain struct{ N int }
 	StrHTML  struct{} // both a Stringer and an HTMLer
 )
+
+// AllKinds has an exported field of every kind, Meths methods of every shape (all total).
+type AllKinds struct {
+	KBool    bool
+	KInt8    int8
+	KUint64  uint64
+	KUintptr uintptr
+	KFloat32 float32
+	KCplx    complex128
+	KStr     string
+	KPInt    *int
+	KPPS     **S
+	KPNil    *S
+	KIface   interface{}
+	KIfaceP  interface{}
+	KErr     error
+	KStrnger fmt.Stringer
+	KSlice   []interface{}
+	KNilSl   []string
+	KArr     [2]*S
+	KMap     map[interface{}]interface{}
+	KNilMap  map[string]int
+	KChan    chan int
+	KFunc    func(...interface{}) (int, error)
+	KNilFunc func()
+	KUnsafe  unsafe.Pointer
+	KTime    time.Time
+	KPTime   *time.Time
+	KDur     time.Duration
+	KRV      reflect.Value
+	KAnon    struct{ In *S }
+	KIter    plush.Iterator
+	KHTML    template.HTML
+}
+
+type Meths struct{ N int }
+
+func (m Meths) None()                             {}
+func (m Meths) Three() (int, string, error)       { return m.N, "s", nil }
+func (m Meths) TwoNoErr() (int, int)              { return 1, 2 }
+func (m Meths) ErrOnly() error                    { return nil }
+func (m Meths) Iface(v interface{}) interface{}   { return v }
+func (m Meths) Vari(a int, xs ...interface{}) int { return a + len(xs) }
+func (m Meths) Opt(o map[string]interface{}) int  { return len(o) }
+func (m Meths) Help(h plush.HelperContext) bool   { return h.HasBlock() }
+func (m Meths) OptHelp(s string, o hctx.Map, h hctx.HelperContext) string {
+	return fmt.Sprint(s, len(o), h.HasBlock())
+}
+func (m Meths) Self() Meths          { return m }
+func (m Meths) PSelf() *Meths        { return &m }
+func (m Meths) NilP() *Meths         { return nil }
+func (m Meths) FnRet() func(int) int { return func(i int) int { return i + m.N } }
+func (m Meths) Iter() plush.Iterator { return &iterT{items: []interface{}{1, 2}} }
+func (m Meths) N2() int              { return m.N }
+func (m *Meths) PtrRecv(i int) int { // nil-safe
+	if m == nil {
+		return i
+	}
+	return m.N + i
+}
+
+// MyErr: a pointer type implementing error; a nil *MyErr returned as error is a non-nil error value
+type MyErr struct{ msg string }
+
+func (e *MyErr) Error() string { // nil-safe
+	if e == nil {
+		return "nil *MyErr"
+	}
+	return e.msg
+}
 
 func (Pr) Printable() bool               { return true }
 func (s IfcSelf) Interface() interface{} { return s }
@@ -863,6 +934,35 @@ var widePool = []*pv{
 	w("fctxhas", "func", func() interface{} {
 		return func(k string, h plush.HelperContext) bool { return h.Has(k) }
 	}),
+	// an error result that is a typed nil pointer; a helper that keeps its HelperContext for later; plush's own types as data
+	w("ftypednilerr", "func", func() interface{} { return func() (string, error) { var e *MyErr; return "x", e } }),
+	w("ftypederr", "func", func() interface{} { return func() (string, error) { return "x", &MyErr{"typed"} } }),
+	w("fstash", "func", func() interface{} {
+		return func(h plush.HelperContext) string { h.Set("stashed", h); return "" }
+	}),
+	w("hczero", "struct", func() interface{} { return plush.HelperContext{} }),
+	w("phczero", "ptr", func() interface{} { return &plush.HelperContext{} }),
+	w("hcbare", "struct", func() interface{} { return plush.HelperContext{Context: plush.NewContext()} }),
+	w("tmplval", "ptr", func() interface{} { t, _ := plush.NewTemplate("<%= 1 %>"); return t }),
+	w("myerrnil", "nilptr", func() interface{} { return (*MyErr)(nil) }),
+	w("errtypednil", "struct", func() interface{} { var e *MyErr; return error(e) }),
+	w("allkinds", "struct", func() interface{} {
+		i := 1
+		s := newS()
+		ps := &s
+		t := time.Date(2020, 1, 2, 3, 4, 5, 0, time.UTC)
+		return AllKinds{KInt8: -1, KUint64: math.MaxUint64, KCplx: complex(1, 1), KStr: "k", KPInt: &i, KPPS: &ps, KIface: 1, KIfaceP: (*S)(nil), KErr: errors.New("ke"), KStrnger: (*Str)(nil),
+			KSlice: []interface{}{nil, 1}, KArr: [2]*S{nil, ps}, KMap: map[interface{}]interface{}{1: "a", "a": nil}, KChan: make(chan int), KFunc: func(xs ...interface{}) (int, error) { return len(xs), nil },
+			KUnsafe: unsafe.Pointer(&i), KTime: t, KPTime: &t, KDur: time.Second, KRV: reflect.ValueOf(1), KIter: &iterT{items: []interface{}{1}}, KHTML: "<b>"}
+	}),
+	// (KRV is set: reflect.Value.Interface panics on the zero Value, see suspectPool)
+	w("allkindszero", "struct", func() interface{} { return AllKinds{KRV: reflect.ValueOf(0)} }),
+	w("pallkinds", "ptr", func() interface{} { return &AllKinds{KRV: reflect.ValueOf(0)} }),
+	w("meths", "struct", func() interface{} { return Meths{N: 1} }),
+	w("pmeths", "ptr", func() interface{} { return &Meths{N: 2} }),
+	w("nilpmeths", "nilptr", func() interface{} { return (*Meths)(nil) }),
+	wm("mmeths", "string", func() interface{} { return map[string]Meths{"a": {N: 3}} }),
+	w("slmeths", "slice", func() interface{} { return []Meths{{N: 4}} }),
 	// named function types, method values, method expressions
 	w("myfn", "func", func() interface{} { return MyFn(func(i int) int { return i + 1 }) }),
 	w("myfnnil", "func", func() interface{} { return MyFn(nil) }),
@@ -906,6 +1006,7 @@ var suspectPool = []*pv{
 	w("embpstrnil", "struct", func() interface{} { return EmbPStr{} }),
 	w("embphrnil", "struct", func() interface{} { return EmbPHr{} }),
 	w("anyssuspect", "slice", func() interface{} { return []interface{}{1, EmbPStr{}} }),
+	w("allkindsrvzero", "struct", func() interface{} { return AllKinds{} }), // .KRV is the zero reflect.Value
 }
 
 var byName = map[string]*pv{}
@@ -954,6 +1055,9 @@ func pairOK(r *vk.Run, a, b *pv, square bool) bool {
 		}
 		return (f.Name == "selfslice" || f.Name == "tselfhash") && tiny[o]
 	}
+	if a.Fatal || b.Fatal { // thorough: every value that contains itself, with the core partners (and with itself)
+		return a == b || a.Fatal && core[b] || b.Fatal && core[a]
+	}
 	switch {
 	case !a.Wide && !b.Wide:
 		return true
@@ -969,6 +1073,10 @@ func init() {
 	pool = append(pool, widePool...)
 	if includeSuspect || os.Getenv("VERIF_C04_SUSPECT") != "" {
 		pool = append(pool, suspectPool...)
+	} else {
+		for _, p := range suspectPool { // known by name, so that a saved case replays; not generated
+			byName[p.Name] = p
+		}
 	}
 	for _, p := range pool {
 		if byName[p.Name] != nil {
@@ -1221,6 +1329,16 @@ func render(c Case) (res vk.Res, parseErr error, harness error) {
 	if pres.Err != nil {
 		return vk.Res{}, pres.Err, nil
 	}
+	if c.Matrix == "shared" {
+		parts := strings.SplitN(string(c.Tmpl), sharedSep, 2)
+		for _, part := range parts {
+			res = vk.Safe(func() (string, error) { return plush.Render(part, plush.NewContextWith(data)) })
+			if res.Panicked() {
+				return res, nil, nil
+			}
+		}
+		return vk.Res{Out: res.Out, Err: res.Err}, nil, nil
+	}
 	if c.Seq {
 		for _, n := range c.Vars {
 			d, err := buildData([]string{n, "fblk", "fany"})
@@ -1243,6 +1361,18 @@ func render(c Case) (res vk.Res, parseErr error, harness error) {
 			return plush.BuffaloRenderer(string(c.Tmpl), nil, map[string]interface{}{"f0": func() string { return "f0" }})
 		case "buffalo":
 			return plush.BuffaloRenderer(string(c.Tmpl), data, map[string]interface{}{"f0": func() string { return "f0" }})
+		case "ctxvalue": // the values come from the context.Context underneath, not from the data map
+			var cc context.Context = context.Background()
+			for _, k := range c.Vars {
+				if v, ok := data[k]; ok {
+					cc = context.WithValue(cc, k, v) // string keys are what a template can name
+				}
+			}
+			pc := plush.NewContextWithContext(cc)
+			pc.Set("partialFeeder", feeder)
+			return tpl.Exec(pc)
+		case "outer": // the values live in the outer context, the render runs on a child of a child
+			return tpl.Exec(plush.NewContextWithOuter(map[string]interface{}{}, plush.NewContextWith(data)).New())
 		}
 		if c.Ctx == "helptest" { // plush's own second implementation of hctx.Context (helpers/helptest)
 			ctx := helptest.NewContext()
@@ -1394,6 +1524,12 @@ func renderIsolated(c Case) (res vk.Res, parseErr error, harness error) {
 	}
 	line, _ := json.Marshal(c)
 	ch.in.Write(append(line, '\n'))
+	// safety net: a case costs microseconds; a child that has not answered after three minutes is killed, which
+	// ends the read below (the case is then reported like a death of the child, with this message)
+	hung := int32(0)
+	proc := ch.cmd.Process
+	timer := time.AfterFunc(3*time.Minute, func() { atomic.StoreInt32(&hung, 1); proc.Kill() })
+	defer timer.Stop()
 	for {
 		l, err := ch.out.ReadString('\n')
 		if strings.HasPrefix(l, "ISO ") {
@@ -1421,6 +1557,9 @@ func renderIsolated(c Case) (res vk.Res, parseErr error, harness error) {
 			report := ch.stderr.String()
 			ch = nil
 			msg := "fatal error (child process died)"
+			if atomic.LoadInt32(&hung) == 1 {
+				msg = "no result within 3 minutes (the child process was killed)"
+			}
 			for _, sl := range strings.Split(report, "\n") {
 				if strings.HasPrefix(sl, "fatal error: ") || strings.HasPrefix(sl, "panic: ") {
 					msg = sl
@@ -1586,7 +1725,7 @@ func matrixIndex(r *vk.Run, b *builder) {
 	conts = append(conts, sub("pS", ".L"), sub("pS", ".M"), sub("sval", ".L"), sub("pS", ".Any"), sub("pS", ".P"))
 	for _, c := range conts {
 		for _, i := range pool {
-			if !pairOK(r, c, i, true) && !(c.Kind == "map" && c.Wide && !(r.Quick() && (c.Fatal || i.Fatal))) { // the further maps meet every key
+			if !pairOK(r, c, i, true) && !(c.Kind == "map" && c.Wide && !c.Fatal && !i.Fatal) { // the further maps meet every key
 				continue
 			}
 			nt := !indexNatural(c, i)
@@ -1806,6 +1945,10 @@ func helperNames() []string {
 }
 
 func matrixHelper(r *vk.Run, b *builder) {
+	dozen := map[*pv]bool{}
+	for _, p := range append(six(), eight()...) {
+		dozen[p] = true
+	}
 	l2 := argLists(pool, 2)
 	{ // quick: 0-1 arguments from the whole pool; pairs where at least one side is one of every third value of the original pool
 		third := map[*pv]bool{}
@@ -1822,6 +1965,8 @@ func matrixHelper(r *vk.Run, b *builder) {
 				continue
 			case r.Quick() && !l[0].Wide && !l[1].Wide && !third[l[0]] && !third[l[1]]:
 				continue
+			case r.Quick() && (l[0].Wide && !dozen[l[1]] || l[1].Wide && !dozen[l[0]]):
+				continue // quick: a further value meets twelve partners per helper
 			}
 			keep = append(keep, l)
 		}
@@ -1918,6 +2063,12 @@ var members2 = []string{
 	".F0()", ".F1(1)", ".F1()", ".FNil()", ".FV(1, 2)", ".M(1)", ".M.Twice(1)", ".Any()", ".F0", ".FNil", ".A", ".A[0]", ".A[5]", ".PA", ".PA[0]", ".AA[0][1]", ".AA[0]", ".IA[1]", ".IA[0][0]",
 	".Next", ".Next.Next.V", ".Next.Next.Next.Next", ".Kids", ".Kids[0].V", ".Kids[0].Kids[0].Kids", `.Up["a"].V`, `.Up["zz"].V`, ".String", ".Valid", ".Twice(2)", ".Twice()", ".Int64()", ".Seconds()", ".Value()",
 	".Err", ".St", ".St.String()", ".Any.F", ".Any[0]", ".I", ".S", ".S.F", ".S.Hello()", ".IsNil()", ".Kind()", ".Bool()", ".Index(0)", ".Sign()", ".New()", `.Has("a")`, `.Value("a")`, ".Done()", ".Err()",
+	".KBool", ".KInt8", ".KUint64", ".KUintptr", ".KFloat32", ".KCplx", ".KStr", ".KPInt", ".KPPS", ".KPPS.F", ".KPNil", ".KPNil.F", ".KIface", ".KIfaceP", ".KIfaceP.F", ".KErr", ".KErr.Error()", ".KStrnger", ".KStrnger.String()",
+	".KSlice", ".KSlice[0]", ".KNilSl", ".KNilSl[0]", ".KArr", ".KArr[1].F", ".KArr[0].F", ".KMap", ".KMap[1]", ".KNilMap", `.KNilMap["a"]`, ".KChan", ".KFunc", ".KFunc(1, nil)", ".KNilFunc", ".KNilFunc()", ".KUnsafe", ".KTime", ".KTime.Year()",
+	".KPTime", ".KPTime.Unix()", ".KDur", ".KDur.String()", ".KRV", ".KRV.Int()", ".KAnon", ".KAnon.In", ".KAnon.In.F", ".KIter", ".KIter.Next()", ".KHTML",
+	".None()", ".Three()", ".TwoNoErr()", ".ErrOnly()", ".Iface(nil)", ".Iface(1).F", ".Vari(1)", ".Vari()", ".Vari(1, nil, 2)", `.Vari("x")`, ".Opt()", `.Opt({"a": 1})`, ".Opt(nil)", ".Help()", ".Help() { %>B<% }", `.OptHelp("s")`, `.OptHelp("s", {"a": 1}) { %>B<% }`,
+	".Self().Self().N", ".PSelf().N", ".NilP().N", ".NilP().Self()", ".FnRet()", ".FnRet()(1)", ".Iter()", ".N2()", ".N2", ".PtrRecv(1)", ".PtrRecv()", ".PtrRecv", ".N", ".N()",
+	".Block()", ".HasBlock()", `.Render("<%= 1 %>")`, ".Context", ".BlockWith(nil)", `.Exec(nil)`, ".Input", ".Clone()", ".Error()",
 	".Hello()()", ".Fn(1)(2)", ".L[0][0]", ".L[0]()", `.M["k"]["k"]`, ".P.L[0]", ".P.P.L[0]", ".PHello().F", ".Self", ".String().String()", ".T.Unix()", ".T.Year", ".Any.Any", ".Fn.F",
 }
 
@@ -2056,10 +2207,18 @@ func matrixOdd(r *vk.Run, b *builder) {
 		`<%% let x = {"a": %[1]s} %%><%% x["a"] = x %%><%%= x %%>`,
 		`<%%= %[1]s %%><%%= raw(inspect(%[1]s)) %%><%%= "" + %[1]s %%><%%= json(%[1]s) %%>`,
 		`<%%= "s" ~= "" + %[1]s %%>`,
+		`<%%= fstash() { %%>[<%%= %[1]s %%>]<%% } %%><%%= stashed.Block() %%><%%= stashed.BlockWith(stashed.New()) %%><%%= for (v) in [1, 2] { %%><%%= stashed.Block() %%><%% } %%><%%= stashed.HasBlock() %%>`,
+		`<%%= fstash() %%><%%= stashed.Block() %%><%%= stashed.Render(%[1]s) %%>`,
+		`<%%= fstash() { %%>B<%% } %%><%%= contentFor("c", stashed) %%><%%= contentOf("c") %%><%%= partial("p", {"k": %[1]s}, stashed) %%><%%= htmlEscape("s", stashed) %%><%%= stashed %%><%%= inspect(stashed) %%>`,
+		`<%%= for (v) in %[1]s { %%><%% contentFor("c") { %%>[<%%= v %%>]<%% } %%><%% } %%><%%= contentOf("c") %%>`,
+		`<%% let f = fn(q) { %%><%% contentFor("c") { %%><%%= q %%><%% } %%><%% } %%><%% f(%[1]s) %%><%%= contentOf("c") %%><%%= contentOf("c", {"q": 1}) %%>`,
+		`<%% contentFor("c") { %%><%%= contentOf("d") %%><%% } %%><%% contentFor("d") { %%><%%= %[1]s %%><%% } %%><%%= contentOf("c") %%>`,
+		`<%%= partial(%[1]s, {"layout": %[1]s}) %%>`,
+		`<%%= ftypednilerr() %%>`, `<%%= ftypederr() %%><%%= %[1]s %%>`,
 		`<%%= contentFor("c") { %%><%%= %[1]s %%><%% } %%><%%= contentOf("c") %%><%%= contentOf("c", {"%[1]s": 1}) %%>`,
 		`<%% contentFor("c") { %%><%%= for (v) in q { %%><%%= v %%><%% } %%><%% } %%><%%= contentOf("c", {"q": %[1]s}) %%>`,
 	}
-	deps := []*pv{P("fany"), P("fblk"), P("tim"), P("ptim")}
+	deps := []*pv{P("fany"), P("fblk"), P("tim"), P("ptim"), P("fstash"), P("ftypednilerr"), P("ftypederr")}
 	for _, x := range pool {
 		for k, f := range forms {
 			if x.Spell != "" && (strings.Contains(f, "%[1]s = ") || strings.Contains(f, "%[1]s[k] = ") || strings.Contains(f, "] = ") || strings.Contains(f, "{%[1]s")) {
@@ -2134,6 +2293,12 @@ func matrixCtx(r *vk.Run, b *builder) {
 				c.Ctx = "buffalo"
 				b.add(cell{c, true, "ctx/BuffaloRenderer"})
 			}
+			if !x.Wide || r.Thorough() {
+				c.Ctx = "ctxvalue"
+				b.add(cell{c, true, "ctx/values from context.Context"})
+				c.Ctx = "outer"
+				b.add(cell{c, true, "ctx/values in the outer context"})
+			}
 		}
 	}
 	// no data: NewContextWith(nil), BuffaloRenderer(input, nil, helpers)
@@ -2166,6 +2331,41 @@ func matrixReexec(r *vk.Run, b *builder) {
 		}
 	}
 }
+
+// matrixShared: two templates rendered one after the other on contexts built over the SAME data map (what the
+// first one lets, defines or stores at the top level is what the second one finds)
+func matrixShared(r *vk.Run, b *builder) {
+	pairs := [][2]string{
+		{`<%% let y = %s %%>`, `<%%= y %%><%%= y[0] %%><%%= y.F %%>`},
+		{`<%% let g = fn(q) { return q } %%><%% let y = g(%s) %%>`, `<%%= g(y) %%><%%= g(g)(1) %%><%%= g %%>`},
+		{`<%% let g = fn() { %%>[<%%= %[1]s %%>]<%% } %%>`, `<%%= g() %%><%%= for (v) in [1, 2] { %%><%%= g() %%><%% } %%>`},
+		{`<%% contentFor("c") { %%>[<%%= %s %%>]<%% } %%>`, `<%%= contentOf("c") %%><%%= contentOf("c", {"k": 1}) %%>`},
+		{`<%% let y = [%s] %%><%% y[0] = y %%>`, `<%%= y %%><%%= len(y) %%><%%= y[0][0] == nil %%>`},
+		{`<%% let len = %s %%><%% let nil = 1 %%>`, `<%%= len("a") %%><%%= nil %%><%%= unk == nil %%>`},
+		{`<%%= fstash() { %%>[<%%= %s %%>]<%% } %%>`, `<%%= stashed.Block() %%><%%= stashed.HasBlock() %%><%%= stashed.Render("<%%= 1 %%>") %%>`},
+		{`<%% let y = %s %%><%% return 1 %%>tail`, `<%%= y %%>`},
+		{`<%%= for (k, v) in %s { %%><%% let kept = v %%><%% } %%>`, `<%%= kept %%><%%= k %%><%%= v %%>`},
+		{`<%% %[1]s = 1 %%>`, `<%%= %[1]s %%>`},
+		{`<%%= %s.Nope %%>`, `ok<%%= 1 %%>`},
+	}
+	for _, x := range pool {
+		if x.Fatal {
+			continue
+		}
+		for k, p := range pairs {
+			if x.Spell != "" && strings.Contains(p[0], "%[1]s = ") {
+				continue
+			}
+			body := fmt.Sprintf(p[0], x.spell()) + sharedSep + fmt.Sprintf(p[1], x.spell())
+			c := mkCase("shared", body, x, P("fstash"))
+			c.Vars = trimVars(c)
+			b.add(cell{c, true, fmt.Sprintf("shared/pair%d", k)})
+		}
+	}
+}
+
+// sharedSep separates the two templates of a "shared" case
+const sharedSep = "\n<%# --- second template, same data map --- %>\n"
 
 // sweepExprs: one expression evaluated in one render for a sequence of values of changing kind
 var sweepExprs = []string{
@@ -2253,7 +2453,16 @@ func (g *progGen) ident() string {
 
 // simple: an expression that is not an array or hash literal and needs no parentheses (loop iterables, conditions)
 func (g *progGen) simple(d int) string {
-	switch rapid.IntRange(0, 5).Draw(g.t, "simplekind") {
+	switch rapid.IntRange(0, 8).Draw(g.t, "simplekind") {
+	case 6: // any of the member shapes, on any identifier
+		return g.ident() + rapid.SampledFrom(members2).Draw(g.t, "member2")
+	case 7: // a call on a result, an element called
+		return g.ident() + rapid.SampledFrom([]string{"()()", "[0]()", `["a"]()`, "(1)(2)", "[0][0]", `["a"]["a"]`, "()[0]", "[0].F", "[0].Hello()"}).Draw(g.t, "chain")
+	case 8:
+		if len(g.fns) > 0 {
+			return rapid.SampledFrom(g.fns).Draw(g.t, "fn") + "(" + g.leaf() + ")" + rapid.SampledFrom([]string{"()", "[0]", ""}).Draw(g.t, "chain")
+		}
+		return g.ident()
 	case 0, 1:
 		return g.ident()
 	case 2:
@@ -2480,7 +2689,8 @@ func (g *progGen) stmts(d int, inLoop, inFn bool) string {
 			// would make every later traversal (emit, inspect) recurse until the fatal stack overflow
 			v := rapid.SampledFrom(scalars).Draw(g.t, "assigned")
 			g.used[v] = true
-			fmt.Fprintf(&sb, "<%% %s[%s] = %s %%>", g.ident(), g.expr(d-1), P(v).spell())
+			target := rapid.SampledFrom([]string{"", "", ".L", ".M", ".P.L", ".Any", ".IA", ".Kids", ".Up", ".KSlice", ".KMap", "[0]", `["a"]`}).Draw(g.t, "target")
+			fmt.Fprintf(&sb, "<%% %s%s[%s] = %s %%>", g.ident(), target, g.expr(d-1), P(v).spell())
 		case k == 6 && d > 0:
 			fmt.Fprintf(&sb, "<%%= if (%s) { %%>%s<%% } else { %%>%s<%% } %%>", g.cond(d-1), g.stmts(d-1, inLoop, inFn), g.stmts(d-1, inLoop, inFn))
 		case k == 7 && d > 0 && g.loops < 3:
@@ -2554,15 +2764,29 @@ func genProgram(t *rapid.T) Case {
 
 // ---- driver ---------------------------------------------------------------------------------------------
 
-const rule = "Seven exhaustive matrices over a pool of ~100 named Go values (ints of every width incl. negative/min/max, uints, floats incl. NaN, " +
+const rule = "Sixteen exhaustive matrices over a pool of ~370 named Go values (a first pool of ~130: ints of every width incl. negative/min/max, uints, floats incl. NaN, " +
 	"strings empty/non-empty/non-regex, bools, the nil literal, an unknown identifier, typed nils (*struct, *[]int, *time.Time, nil slice/map/func/iterator), " +
 	"slices incl. []interface{} with nils inside, arrays, maps keyed by string/int/float/interface{}, structs with exported/unexported fields and value/pointer methods, " +
 	"pointers (also to slices, arrays, maps, funcs, pointers), ~25 function signatures incl. variadic, block-taking, error-returning, void, " +
-	"iterators, template.HTML, HTMLer, Stringer, time.Time, template-defined functions fn(a, b) and fn(), literals), each built fresh for every render: " +
+	"iterators, template.HTML, HTMLer, Stringer, time.Time, template-defined functions fn(a, b) and fn(), literals; and ~240 further shapes (Wide): arrays/slices/maps of interfaces, arrays, funcs, nested nils, " +
+	"maps keyed by arrays / structs / interfaces / channels / named types holding NaN, nil and pointers, unhashable values of comparable types, structs embedding interfaces and unexported structs, unexported fields of every kind, " +
+	"a struct with a field of every kind, methods of every shape, pointer cycles, pointers to pointers / interfaces / nil maps, reflect.Value, time.Duration, json.Number, big.Int/Float/Rat, sql.Null*, plush's own Context / HelperContext / Template as data, " +
+	"strings with invalid UTF-8 / NUL / format verbs / template text / hostile regular expressions, extreme numbers of every width, channels, unsafe.Pointer, nesting of depth 2000, ~90 more function signatures " +
+	"(0-3 results, typed-nil errors, functions as results, pointer / interface / func / chan / named / array parameters, variadic of each, helper contexts in every position, helpers that render, re-run their block, keep their context), " +
+	"named func types, method values and expressions, iterators of other shapes, and values that CONTAIN THEMSELVES (Fatal: []interface{} / map / struct-of-slices / pointer, built in Go or by the template), " +
+	"each built fresh for every render. A Wide value is paired with the whole pool in the thorough tier and with a core of 32 values in the quick tier (12 in the helper matrix); cases that mention a Fatal value are rendered in a child process, " +
+	"so that a fatal stack overflow is a class with a witness like any panic (quick tier: two of them are paired, with six partners): " +
 	"(ops) L op R for 13 binary operators and !; (index) c[i], c[i].F, c[i].M(), c[i][0], if (c[i]), c[i] = v; (member) r.F r.M() r.Nope r.unexported r.Nope() and 40 more member shapes, r.Add(x); " +
 	"(for) 13 loop shapes over every kind incl. break/continue/return/write-back/nested; (call) callee(args) with 0-3 arguments from 6 kinds with and without block + 1-2 arguments from the whole pool, results used; " +
 	"(helper) every built-in in plush.Helpers.All() x 0-2 arguments from the whole pool, 3 arguments from 8 kinds, with blocks, option maps for truncate/partial/contentOf with values from the whole pool " +
-	"(range/between/until results are never iterated with large arguments); (stmt) emit/let/assign/if/else-if/return/array/hash/function-return of every kind. " +
+	"(range/between/until results are never iterated with large arguments); (stmt) emit/let/assign/if/else-if/return/array/hash/function-return of every kind; " +
+	"(target) assignment to c[i][j], c[0][0][0], c.member[i] for 19 members, c.F; (chain) c[i][j][k], c()(), c[0](), g(c)(), fn literals called in place, 190 further member shapes; " +
+	"(odd) 70 shapes: loop variables and the iterable re-assigned or written while iterated, break / continue / return as operands, arguments, elements and indexes, pool values as hash keys, the context keys the engine reads " +
+	"(TIME_FORMAT, contentType, partialFeeder, yield, nil, len) bound to every value, stored helper contexts, contentFor / contentOf across loops and functions; " +
+	"(prefix) 67 shapes of - and ! (spaced, doubled, parenthesised, on calls / absent entries / nil members, nested in infix expressions) + literal operands; " +
+	"(ctx) 29 shapes executed with helpers/helptest.HelperContext as the context, through BuffaloRenderer, with the values in a context.Context or in an outer context, and with a nil data map; " +
+	"(shared) 11 pairs of templates rendered one after the other over the same data map; (reexec) 38 templates parsed once and executed for every pool value in turn; " +
+	"(sweep) 23 expressions evaluated in one loop over every value they accept, in rotated orders, and over every value after a good one. " +
 	"Then random well-formed programs (all constructs, depth 3) whose leaves come from the pool. " +
 	"Oracle: Parse then Exec returns (out, nil) or (\"\", err), never a panic; templates that do not parse are outside the property. " +
 	"Panics are grouped by root cause: class = matrix/innermost plush frame: normalised message. " +
@@ -2572,7 +2796,9 @@ func setup(t *testing.T) *vk.Run {
 	r := vk.Start(t, "C04", rule,
 		"pool functions, methods and iterators are total and nil-safe, so a panic can only come from the engine, a built-in helper, or the reflect call the engine makes",
 		"a panic inside the parser is C03's subject; such a template is counted as not parsing",
-		"the context always holds partialFeeder (serves partials \"p\" and \"abc\")")
+		"the context always holds partialFeeder (serves partials \"p\" and \"abc\")",
+		"values whose own String / HTML / Interface method panics when the output tag calls it (a method promoted through a nil embedded pointer or interface, reflect.Value.Interface on the zero Value) are kept apart in suspectPool and generated only with VERIF_C04_SUSPECT=1",
+		"a case that mentions a value that contains itself is rendered in a child process (TestIsoChild, 8 MB stack limit); a child that dies is a failure of the class 'fatal error: stack overflow' at the innermost plush frame of the runtime's report")
 	r.Replayer("case", func(raw json.RawMessage) *vk.Fail {
 		var c Case
 		if f := vk.Decode(raw, &c); f != nil {
@@ -2695,6 +2921,7 @@ func TestProp(t *testing.T) {
 	runCells(r, "odd: pool x 60 shapes: loop variables / iterable re-assigned in the body, break / continue / return in odd positions, pool values as hash keys, context keys the engine reads", matrixOdd)
 	runCells(r, "prefix: pool x 67 shapes of the prefix operators - and ! (spaced, doubled, parenthesised, on calls / absent entries / nil members, nested in infix expressions, in if / let / for / return / arguments / literals) + 21 literal operands x 15 shapes", matrixPrefix)
 	runCells(r, "ctx: pool x 29 statement, loop, call and helper shapes executed with a helptest.HelperContext as the context and through BuffaloRenderer; 9 templates with a nil data map", matrixCtx)
+	runCells(r, "shared: pool x 11 pairs of templates rendered one after the other over the same data map (let / fn / contentFor / stored helper context / self-containing array carried over)", matrixShared)
 	runCells(r, "reexec: 38 templates, each parsed once and executed for every pool value in turn (x of changing kind), in rotated orders", matrixReexec)
 	runCells(r, "sweep: 23 expressions evaluated in one loop over every pool value they accept, in rotated orders, and after a good value over every other value", matrixSweep)
 
